@@ -416,6 +416,47 @@ def check(prop, tier, replay=None):
                      "regions_ok": True, "extra_files": 0, "unparsed": 0,
                      "info": {"argv": [f"make_duration_formatter({tf!r}) on {len(grid)} values up to 100 h"], "kind": "formatter", "fmt": [], "api_kwargs": {},
                               "stdout": " ".join(fmt(ms / 1000) for ms in grid[:6]), "stderr": "", "raised": None, "api_error": None, "extra_files": [], "threads_left": 0}})
+    # ---- every --time-format template of up to 3 (thorough: 4) tokens: raised exactly when CliTpl says so; accepted ones render the fields
+    if not fxmode:
+        from auditok.exceptions import TimeFormatError
+        rest = tlc.run("CliTpl", f"CONSTANTS MaxTok = {3 if tier == 'quick' else 4}\nSPECIFICATION Spec\nINVARIANT Sane\nCONSTRAINT Export\nCHECK_DEADLOCK FALSE\n",
+                       wd, name="tpl", timeout=1200, mem="4g", workers=4)
+        tlc.require_ok(rest, "leg M templates")
+        V.add_model("M:templates", rest)
+        if rest["violated"] or not rest["ok"]:
+            raise MachineryError(f"leg M templates: {rest['violated']} / {rest['error']}")
+        tpls = {}
+        for j in rest["json"]:
+            tpls.setdefault(canon(j["tpl"]), j)
+        nbad = 0
+        probe = [0.0, 0.999, 59.9996, 3723.25, 86399.999, 360000.001]
+        for j in tpls.values():
+            text = "".join(j["tpl"])
+            try:
+                f_ = _util.make_duration_formatter(text)
+                raised = None
+            except TimeFormatError:
+                raised = "TimeFormatError"
+            except Exception as exc:  # noqa
+                raised = type(exc).__name__
+            good = (raised is None) == bool(j["ok"]) and raised in (None, "TimeFormatError")
+            shown = ""
+            if good and raised is None and j["kind"] == "F":
+                for v in probe:
+                    W_ = int(v * 1000)
+                    fld = {"%h": "%02d" % (W_ // 3600000), "%m": "%02d" % ((W_ // 60000) % 60), "%s": "%02d" % ((W_ // 1000) % 60), "%i": "%03d" % (W_ % 1000)}
+                    exp_ = "".join(fld.get(tok_, tok_) for tok_ in j["tpl"])
+                    shown = f_(v)
+                    if shown != exp_:
+                        good = False
+                        shown = f"{shown!r} for {v}, expected {exp_!r}"
+                        break
+            if not good:
+                nbad += 1
+                V.violation({"template": text}, f"make_duration_formatter({text!r}): raised={raised} {shown}; CliTpl says the template is "
+                            f"{'accepted' if j['ok'] else 'an unknown directive (TimeFormatError)'}", {"leg": "templates", "case": j})
+        V.cov["traces_validated_against_impl"] += len(tpls)
+        V.leg("templates", templates=len(tpls), accepted=sum(1 for j in tpls.values() if j["ok"]), mismatches=nbad)
     tcfg = "SPECIFICATION Spec\nCONSTRAINT Mon\nPOSTCONDITION Post\nCHECK_DEADLOCK FALSE\n"
     rows, st = judge("CliTrace", tcfg, runs, wd, "cli", weight=lambda x: len(x["lines"]) + 1, strip=lambda x: {k: v for k, v in x.items() if k != "info"})
     V.cov["states"] += st
